@@ -379,43 +379,89 @@ def space_src(ctx):
     bound = ('D1: %d operators x every special leaf (%d kinds) per slot; D2a: every operator x every slot x every operator as '
              'single compound child; D2b: all depth-2 trees over %d precedence-level representatives'
              % (len(ops), len(special), len(LEVEL_OPS)))
+    out = list(dict.fromkeys(out))
+    desc = []
+    total = len(out)
     if not ctx.quick:
         # D3a: chains of three operators (one compound child per level), full alphabet
-        d2chain = []
+        # D3b: all depth-3 trees over class representatives (arity <= 2); D2c: binary operators, two compound children
         for op in ops:
             for i in range(ARITY[op]):
-                for c in d1:
-                    ch = [NAME_LEAF] * ARITY[op]; ch[i] = c
-                    d2chain.append((op,) + tuple(ch))
-        for op in ops:
-            for i in range(ARITY[op]):
-                for c in d2chain:
-                    ch = [NAME_LEAF] * ARITY[op]; ch[i] = c
-                    out.append((op,) + tuple(ch))
-        # D3b: binary/unary full trees of depth 3 over the operator-class representatives
-        core_ops = ['ifexp', 'or', 'not', '==', '|', '+', '*', 'neg', '**', '.attr', 'lambda']
-        l1 = [NAME_LEAF] + [(op,) + (NAME_LEAF,) * ARITY[op] for op in core_ops]
-        l2 = list(l1)
-        for op in core_ops:
-            if ARITY[op] <= 2:
-                for ch in itertools.product(l1, repeat=ARITY[op]): l2.append((op,) + ch)
-        l2 = list(dict.fromkeys(l2))
-        for op in core_ops:
-            if ARITY[op] <= 2:
-                for ch in itertools.product(l2, repeat=ARITY[op]): out.append((op,) + ch)
-        # D2c: every binary-slot operator with both children compound over the full alphabet
-        for op in ops:
+                desc.append(('D3a', op, i)); total += len(_d2chain())
             if ARITY[op] == 2:
-                for a in d1:
-                    for b in d1: out.append((op, a, b))
+                desc.append(('D2c', op, 0)); total += sum(1 for _ in iter_desc(('D2c', op, 0)))
+        for op in D3B_UN + D3B_BIN:
+            for part in range(8 if ARITY[op] == 2 else 1):
+                desc.append(('D3b', op, part))
+                total += sum(1 for _ in iter_desc(('D3b', op, part)))
         bound += ('; D3a: all operator chains of length 3 over the full alphabet; D3b: all depth-3 trees over %d class '
-                  'representatives (arity <= 2); D2c: every binary operator with two compound children (full alphabet)' % len(core_ops))
-    out = list(dict.fromkeys(out))
-    return out, bound
+                  'representatives %s; D2c: every binary operator with two compound children (full alphabet)'
+                  % (len(D3B_UN + D3B_BIN), D3B_UN + D3B_BIN))
+    return out, desc, total, bound
+
+D3B_UN = ['not', 'neg', '.attr', 'lambda']
+D3B_BIN = ['or', '+', '**']
+_cache = {}
+def _d1():
+    if 'd1' not in _cache: _cache['d1'] = [(op,) + (NAME_LEAF,) * ARITY[op] for op in OPS]
+    return _cache['d1']
+def _d2chain():
+    if 'd2' not in _cache:
+        r = []
+        for op in OPS:
+            for i in range(ARITY[op]):
+                for c in _d1():
+                    ch = [NAME_LEAF] * ARITY[op]; ch[i] = c
+                    r.append((op,) + tuple(ch))
+        _cache['d2'] = r
+    return _cache['d2']
+def _d3b_l2():
+    if 'l2' not in _cache:
+        l1 = [NAME_LEAF, ('ifexp', NAME_LEAF, NAME_LEAF, NAME_LEAF)] + [(op,) + (NAME_LEAF,) * ARITY[op] for op in D3B_UN + D3B_BIN]
+        l2 = list(l1)
+        for op in D3B_UN + D3B_BIN:
+            for ch in itertools.product(l1, repeat=ARITY[op]): l2.append((op,) + ch)
+        _cache['l2'] = list(dict.fromkeys(l2))
+    return _cache['l2']
+def iter_desc(d):
+    kind, op, k = d
+    if kind == 'D3a':
+        for c in _d2chain():
+            ch = [NAME_LEAF] * ARITY[op]; ch[k] = c
+            yield (op,) + tuple(ch)
+    elif kind == 'D2c':
+        for a in _d1():
+            for b in _d1():
+                if not (op in LEVEL_OPS and a[0] in LEVEL_OPS and b[0] in LEVEL_OPS): yield (op, a, b)     # else: in D2b
+    elif kind == 'D3b':
+        l2 = _d3b_l2()
+        if ARITY[op] == 1:
+            for a in l2:
+                if not _elsewhere((op, a)): yield (op, a)
+        else:
+            for i, a in enumerate(l2):
+                if i % 8 != k: continue
+                for b in l2:
+                    if not _elsewhere((op, a, b)): yield (op, a, b)
+
+def _is_chain(t):
+    if is_leaf(t): return True
+    comp = [c for c in t[1:] if not is_leaf(c)]
+    return len(comp) <= 1 and all(_is_chain(c) for c in comp)
+def _elsewhere(t):
+    """D3b trees already enumerated by D2b (depth <= 2) or D3a (chains) are skipped: every tree is counted once"""
+    return depth(t) <= 2 or (_is_chain(t) and all(c == NAME_LEAF for c in _leaves(t)))
+def _leaves(t):
+    if is_leaf(t): yield t
+    else:
+        for c in t[1:]:
+            for l in _leaves(c): yield l
 
 def work_src(chunk):
     sub = core.Sub()
+    if isinstance(chunk, tuple): chunk = iter_desc(chunk)
     for skel in chunk:
+        if len(_memo1) > 300000: _memo1.clear()
         st, detail = check_src(skel)
         sub.count('src:trees')
         sub.count('src:' + st.split(':')[0].lower())
@@ -521,14 +567,16 @@ def space_e2e(ctx):
         for op in ops:
             if E_ARITY[op] == 2:
                 for a in d1:
-                    for b in c1: out.append((op, a, b)); out.append((op, b, a))
+                    for b in c1: out.append((op, a, b))
+                for a in c1:
+                    for b in c1: out.append((op, b, a))
             if E_ARITY[op] == 3:
                 for ch in itertools.product(c1, repeat=3): out.append((op,) + ch)
         d2 = []
         for op in E_CORE:
             n = E_ARITY[op]
             for i in range(n):
-                for c in d1:
+                for c in c1[1:]:
                     ch = list(E_LEAVES[:n]); ch[i] = c
                     d2.append((op,) + tuple(ch))
         for op in E_CORE:                            # depth 3 chains over the core alphabet
@@ -537,7 +585,7 @@ def space_e2e(ctx):
                 for c in d2:
                     ch = list(E_LEAVES[:n]); ch[i] = c
                     out.append((op,) + tuple(ch))
-        bound += '; depth 2 with two/three compound children (second from %d core operators); depth-3 chains core x core x all' % len(E_CORE)
+        bound += '; depth 2 with two/three compound children (second from %d core operators); depth-3 chains over the core operators' % len(E_CORE)
     return list(dict.fromkeys(out)), bound
 
 FRONTS = ('gen', 'str', 'lam', 'filter', 'where')
@@ -911,6 +959,35 @@ def cache_histories(ctx):
             n += 1
             got = ids(g['mk'](v)); exp = [i for i, nn in rows.items() if nn == v + w]
             if got != exp: record('H5 same source, other globals', dict(history='H5', v=v, w=w), 'v=%r w=%r: ids %r expected %r' % (v, w, got, exp))
+    # H6: several external sub-expressions in one query keep their own values
+    for a_, b_ in ((1, 1), (2, 3), (3, 2), (4, 4), (5, 1)):
+        def s1(a=a_, b=b_): return select(p for p in P if p.n >= a + 0 and p.id <= b + 1 and p.n != a * 10)
+        def s2(a=a_, b=b_): return select("p for p in P if p.n >= a + 0 and p.id <= b + 1 and p.n != a * 10")
+        def s3(a=a_, b=b_): return P.select(lambda p: p.n >= a + 0 and p.id <= b + 1 and p.n != a * 10)
+        def s4(a=a_, b=b_): return select(p for p in P).filter(lambda p: p.n >= a + 0).filter(lambda p: p.id <= b + 1)
+        for name, th in (('generator', s1), ('string', s2), ('lambda', s3), ('two filters', s4)):
+            n += 1
+            exp = [i for i, nn in rows.items() if nn >= a_ and i <= b_ + 1]
+            got = ids(th)
+            if got != exp: record('H6 several externals in one query|' + name, dict(history='H6', a=a_, b=b_, front=name),
+                                  '%s: a=%r b=%r: ids %r, Python gives %r' % (name, a_, b_, got, exp))
+    # H7: a lambda's own closure wins over a local of the same name at the place where the query is built
+    # (one lambda per front end: the same code object passed first to Entity.select and then to Query.filter is refused
+    #  with ExprEvalError `.0` -- both register extractors under id(code); a refusal, counted below when it happens)
+    def mk_lam1(v): return lambda p: p.n == v + 0
+    def mk_lam2(v): return lambda p: p.n == v + 0
+    def build(lam, v): return P.select(lam)
+    def build_filter(lam, v): return select(p for p in P).filter(lam)
+    for cv, lv in ((1, 2), (2, 1), (3, 3), (4, 5)):
+        for name, b, mk_lam in (('Entity.select', build, mk_lam1), ('Query.filter', build_filter, mk_lam2), ('Query.filter after Entity.select', build_filter, mk_lam1)):
+            n += 1
+            exp = [i for i, nn in rows.items() if nn == cv]
+            try: got = ids(lambda: b(mk_lam(cv), lv))
+            except Exception as e:
+                ctx.count('cache:refused:H7 %s:%s' % (name, type(e).__name__)); continue
+            if got != exp: record('H7 lambda closure vs local of the same name|' + name, dict(history='H7', closure=cv, local=lv, front=name),
+                                  '%s(lambda p: p.n == v) with closure v=%r and a local v=%r in the calling function: ids %r, Python gives %r'
+                                  % (name, cv, lv, got, exp))
     ctx.count('cache:history_steps', n)
     return n
 
@@ -924,14 +1001,18 @@ def run(ctx):
     import pony.orm, pony.orm.asttranslation  # noqa: import before forking
     from vf.seams import dbapi  # noqa
     sys.setrecursionlimit(10000)
-    s1, b1 = space_src(ctx)
+    s1, desc1, total1, b1 = space_src(ctx)
     s2, b2 = space_e2e(ctx)
     ctx.cov['bound_completed'] = dict(src=b1, e2e=b2 + '; %d assignments of (x, y, z); %d front ends' % (len(ASSIGN), len(FRONTS)))
-    for d in ctx.pmap(work_src, chunks(ctx.shuffled(s1), ctx.nworkers * 4)): core.absorb(ctx, d)
-    for d in ctx.pmap(work_e2e, chunks(ctx.shuffled(s2), ctx.nworkers * 8)): core.absorb(ctx, d)
+    for d in ctx.pmap(work_src, ctx.shuffled(chunks(ctx.shuffled(s1), ctx.nworkers * 4) + desc1)): core.absorb(ctx, d)
+    # fresh worker processes every few thousand expressions: Pony's per-process caches (one entry per query text /
+    # code object) would otherwise grow with the enumeration
+    ch = chunks(ctx.shuffled(s2), max(ctx.nworkers * 8, len(s2) // 50))
+    for i in range(0, len(ch), ctx.nworkers * 6):
+        for d in ctx.pmap(work_e2e, ch[i:i + ctx.nworkers * 6]): core.absorb(ctx, d)
     cache_histories(ctx)
     c = ctx.counters
-    ctx.guard('oracle 1 trees', c.get('src:trees', 0), len(s1))
+    ctx.guard('oracle 1 trees', c.get('src:trees', 0), total1)
     ctx.guard('oracle 1 trees regenerated and parsed back (same or wrong)', c.get('src:same', 0) + c.get('src:wrong', 0), 2000)
     ctx.guard('oracle 2 expressions', c.get('e2e:expressions', 0), len(s2))
     ctx.guard('oracle 2 queries whose bound parameter was compared', c.get('e2e:ok', 0) + c.get('e2e:wrong', 0), 2000)
